@@ -2,6 +2,7 @@
 use crate::report::Ctx;
 use crate::rng::Rng;
 
+pub mod dispatch;
 pub mod hist;
 pub mod mass;
 pub mod netval;
@@ -38,6 +39,12 @@ const TRAIN_ASSUME: &[&str] = &[
     "networks/trains from the generator family of DESIGN.md section 3: 2..8 gaps, links 30 m - 6 km, |grade| <= 1.8 %, trains 3-150 cars that fit on the route, consist sized for weight and grade",
     "rail vehicles: the six shipped rolling-stock files and perturbed copies",
     "a run counts as accepted when the builder and the first extend_path returned Ok",
+];
+
+const DISP_ASSUME: &[&str] = &[
+    "estimated-time construction must succeed for a train to take part (routes shorter than the 5-mile look-ahead, braking curves reaching before the path start etc. are counted as rejected draws)",
+    "networks: generator family of DESIGN.md section 3 restricted to 5..24 gaps of 0.4-6 km, |grade| <= 0.8 %, at most 2 restrictions per set, every physical segment with its flip",
+    "run_dispatch's configured constants: headway 8 min, search distance 30 mi, fixed distance 10 mi",
 ];
 
 pub fn spec(id: &str) -> Option<Spec> {
@@ -132,6 +139,15 @@ pub fn spec(id: &str) -> Option<Spec> {
             rule: "case k selects a type group (k mod 12): components, locomotive kinds and consists, traces/vehicles/configs/builders, track objects (Link, Network, PathTpc built/finished), and the four simulation kinds; every object is taken through yaml, json and bincode: serialize, deserialize, second round trip byte-identical (no drift), reloaded data equal (bitwise for yaml/bincode, <= 1 ulp per number for json). For simulations EVERY step index 0..N of a short run (8-60 steps) is a checkpoint: save, load, resume to the end, final object compared with the uninterrupted run. Non-trivial/distinct = (group, case)",
             assumptions: &["'behaves identically' is decided on the serialized data of the object after running to the end (fields marked serde(skip) are caches rebuilt on demand and are not compared)",
                 "EstTimeNet is covered under C15's workload (it needs a dispatch-sized network)"] },
+        "C15" => Spec { id: "C15", run: dispatch::run_c15, cases_quick: 320, cases_thorough: 12000,
+            rule: "case = generated network (5..24 gaps, 0..k sidings, two origins / two destinations, flips, shortest O-D route 10-70 km) x 1..3 trains (both directions, departure 0..3 h); make_est_times for each; the whole graph is traversed: reciprocity of every forward/backward link, EVERY start-to-end walk enumerated by DFS (primary and alternate links; capped at 4000 per net, cap hits recorded), the arrive/clear events of each walk checked against the track network (origin, destination, contiguity, clear after arrive in order), every time/duration finite and non-negative, primary-predecessor equality and predecessor inequality on every edge, trip time = last - first. Non-trivial = net with >=1 split and >=1 join; distinct = hash of (nodes, walks, splits, route, train)",
+            assumptions: DISP_ASSUME },
+        "C04" => Spec { id: "C04", run: dispatch::run_dispatch_case, cases_quick: 480, cases_thorough: 20000,
+            rule: "case = generated network (single track with 0..k passing sidings, two origins/destinations, optional lockouts) x 1..8 trains in both directions with equal and distinct departures and lengths shorter and longer than sidings; run_dispatch under the observer hook: every AfterAdvance/AfterRewind/EndOfIteration/Final snapshot is scanned for simultaneous authorities on a link and its flip/lockout links (violations at EndOfIteration/Final, recorded for the transient phases) and for links_blocked consistency; occupancy windows [front enters, tail leaves] are reconstructed from the final dispatch paths and checked pairwise for opposing/lockout overlap, entry/exit headway (8 min) and order of consecutive followers; plus the black-box front-occupancy condition on the returned timed paths. Non-trivial = instance with opposing traffic in which some leg was delayed beyond free running; distinct = hash of (route, trains, iterations, pairs)",
+            assumptions: DISP_ASSUME },
+        "C05" => Spec { id: "C05", run: dispatch::run_dispatch_case, cases_quick: 480, cases_thorough: 20000,
+            rule: "same instances as C04 (own seed stream): Ok => one route per train, starts on an origin at/after departure, ends on a destination, contiguous, non-decreasing finite times, every leg between consecutive dispatch nodes >= the train's own free-running duration (EstTimeNet.time_to_next), returned path == arrive events of the final dispatch path; Err => names the stuck trains or another explicit cause; panic/abort => violation (also in the debug-assertions build av-chk, where get_unchecked carries its bounds precondition); outer iterations <= 200 x dispatch nodes (bounded progress). Non-trivial = dispatch with >=1 rewind or a delayed leg; distinct as C04",
+            assumptions: DISP_ASSUME },
         _ => return None,
     })
 }
